@@ -371,7 +371,7 @@ def check_property(prop, tier, seed):
             results.append(ur)
             log("unit %-10s items=%d tokens_audited=%d verified=%d errors=%d smt=%.1fs wall=%.1fs canary: %d/%d failed as expected%s" % (
                 unit, len(ur.asm["items"]), ur.asm["stats"].get("tokens_audited", 0), ur.verified, ur.errors, ur.smt_ms / 1000.0, ur.total_wall,
-                ur.canary["failed_as_expected"], ur.canary["functions"], (" DRIFT(%d edits merged from repository)" % len(ur.asm["drift"])) if ur.asm["drift"] else ""))
+                (ur.canary or {}).get("failed_as_expected", 0), (ur.canary or {}).get("functions", 0), (" DRIFT(%d edits merged from repository)" % len(ur.asm["drift"])) if ur.asm["drift"] else ""))
             if tier == "thorough":
                 for sd in seeds[1:]:
                     ur2 = run_unit(unit, workdir, seed=sd, do_canary=False)
